@@ -208,6 +208,151 @@ def D19():
     return holds, f"subclass without custom= of class with custom={{int: Twice}}: from_data -> {r!r}"
 
 
+def D20():
+    import pane
+    T = t.TypeVar('T')
+    def mk():
+        class A(pane.PaneBase):
+            x: int | None = None
+        class G(pane.PaneBase, t.Generic[T]):
+            y: T | None = None
+        return A.from_data({'x': 3}), G[int].from_data({'y': 4})
+    r = _outcome(mk)
+    holds = r[0] == 'ok' and r[1][0].x == 3 and r[1][1].y == 4
+    return holds, f"dataclass fields annotated with PEP 604 unions (int | None, T | None): {r!r}"
+
+
+def D21():
+    import pane
+    T = t.TypeVar('T')
+    def mk():
+        class G(pane.PaneBase, t.Generic[T]):
+            x: T
+        class H(G[t.List[T]], t.Generic[T]):
+            y: T
+        class Q(H[int]):
+            z: int = 0
+        return ({f.name: str(f.type) for f in H[int].__pane_info__.fields}, H[int].from_data({'x': [1], 'y': 2}),
+                {f.name: str(f.type) for f in Q.__pane_info__.fields})
+    r = _outcome(mk)
+    holds = r[0] == 'ok' and r[1][0] == {'x': 'list[int]', 'y': "<class 'int'>"} and r[1][2]['x'] == 'list[int]'
+    return holds, f"class H(G[List[T]], Generic[T]) with own field y: T; H[int] field types / from_data: {r!r}"
+
+
+# ---- known findings (status=known): each returns holds=False while the finding reproduces -------------
+def N1():
+    import pane
+    from fractions import Fraction
+    T = t.Union[str, Fraction]
+    x = pane.from_data(5, T)
+    d = pane.into_data(x, T)
+    x2 = pane.from_data(d, T)
+    return x2 == x and type(x2) is type(x), f"Union[str, Fraction]: 5 -> {x!r} -> {d!r} -> {x2!r}"
+
+
+def N2():
+    import pane
+    T = t.Dict[t.FrozenSet[int], int]
+    x = pane.from_data({(1, 2): 3}, T)
+    r = _outcome(lambda: pane.into_data(x, T))
+    return r[0] == 'ok', f"into_data({x!r}, Dict[FrozenSet[int], int]) -> {r!r}"
+
+
+def N3():
+    import pane
+    class T3(pane.PaneBase, in_format=('tuple', 'struct'), out_format='tuple'):
+        a: int = 1
+        b: int = pane.field(default=2, kw_only=True)
+    x = T3(a=3, b=4)
+    d = x.into_data()
+    r = _outcome(lambda: T3.from_data(d))
+    return r[0] == 'ok' and r[1] == x, f"out_format='tuple' with a keyword-only field: into_data -> {d!r}; from_data(that) -> {r[:2]!r}"
+
+
+def N4():
+    import pane
+    class T4(pane.PaneBase, in_format=('tuple', 'struct'), out_format='tuple'):
+        a: int = 1
+        b: int = pane.field(default=2, exclude=True)
+        c: int = 3
+    x = T4(a=7, b=8, c=9)
+    d = x.into_data()
+    r = _outcome(lambda: T4.from_data(d))
+    return r[0] == 'ok' and (r[1].a, r[1].c) == (7, 9), f"out_format='tuple' with an excluded middle field: {x!r} -> {d!r} -> {r[:2]!r}"
+
+
+def N5():
+    import pane
+    class T5(pane.PaneBase):
+        a: int = 1
+        b: int = pane.field(init=False, default=5)
+    x = T5(a=2)
+    d = _outcome(lambda: x.into_data())
+    r = _outcome(lambda: T5.from_data(d[1])) if d[0] == 'ok' else d
+    return r[0] == 'ok', f"init=False non-excluded field: into_data -> {d!r}; from_data(that) -> {r[:2]!r}"
+
+
+def N6():
+    import pane
+    from pane.types import Range
+    x = Range[int](0, 10, 11)
+    r = _outcome(lambda: pane.convert(x, Range[int]))
+    return r[0] == 'ok' and r[1] == x, f"convert(Range[int](0,10,11), Range[int]) -> {r[:2]!r}"
+
+
+def N7():
+    import pane
+    try:
+        pane.from_data({1: 'a', '1': 'b'}, t.Dict[int, int])
+    except pane.ConvertError as e:
+        n = len(e.tree.children)
+        return n == 2, f"{{1: 'a', '1': 'b'}} vs Dict[int, int]: {n} child(ren) {list(e.tree.children)} for 2 rejected entries"
+    return False, 'accepted'
+
+
+def K6():
+    import pane
+    from pane.converters import ScalarConverter
+    class Twice(ScalarConverter):
+        def __init__(self):
+            super().__init__(int, int, 'an int', 'ints')
+        def try_convert(self, val):
+            return 2 * super().try_convert(val)
+    class CP(pane.PaneBase, custom={int: Twice()}):
+        x: int
+    a, b = CP(x=1).x, CP.from_data({'x': 1}).x
+    return a == b, f"class custom={{int: Twice}}: CP(x=1).x = {a}, CP.from_data({{'x': 1}}).x = {b}"
+
+
+def D13():
+    import pane
+    from pane.annotations import Condition
+    c = Condition(lambda v: True, 'ok')
+    c2 = Condition(lambda v: True, 'ok2')
+    inner = lambda a, b, k: t.Annotated[t.Union[a, b], k]
+    mid1 = t.Annotated[t.Union[inner(int, str, c), inner(bytes, float, c2)], c]
+    mid2 = t.Annotated[t.Union[inner(int, bytes, c2), inner(str, float, c)], c2]
+    T = t.Union[mid1, mid2]
+    try:
+        pane.from_data({'a': 1}, T)
+    except pane.ConvertError as e:
+        s = str(e)
+        return "{'a': 1}" in s.splitlines()[-1], f"footer of a 3-level union error: {s.splitlines()[-1]!r}"
+    return False, 'accepted'
+
+
+def D16():
+    import pane
+    from pane.annotations import Tagged
+    from pane.convert import make_converter
+    class V1(pane.PaneBase):
+        tag: t.Literal['a'] = 'a'
+    class V2(pane.PaneBase):
+        x: int = 0
+    r = _outcome(lambda: make_converter(t.Annotated[t.Union[V1, V2], Tagged('tag')]))
+    return r[0] == 'raise' and r[1] in ('TypeError', 'UnsupportedAnnotation'), f"Tagged over a member without the tag attribute: {r!r}"
+
+
 WITNESSES = {k: v for k, v in dict(globals()).items() if k[:1] in 'DNK' and k[1:].isdigit() and callable(v)}
 
 if __name__ == '__main__':
